@@ -34,6 +34,12 @@ theorem cache_transparent_inv (s : Schema) (t : Forest Unit) (ctx : Option Ty) (
     (applyFC s ctx c t).1 = applyF s ctx t ∧ CacheOK s (applyFC s ctx c t).2 :=
   applyFC_spec s t ctx c hc
 
+/-- every element carries a type (executable) -/
+def allTypedB : Forest Ann → Bool
+  | .nil => true
+  | .leaf _ _ r => allTypedB r
+  | .elem a _ _ _ k r => a.xsdType.isSome && allTypedB k && allTypedB r
+
 /-- **`apply_schema` computes the declarative typing**: for a consistent schema (unique global
 names, Element Declarations Consistent) the annotated tree is the unique one satisfying the typing
 relation: each element's type is the declared type of the declaration its name is attributed to by
@@ -42,6 +48,47 @@ theorem apply_schema_eq_typing (s : Schema) (hs : Consistent s) (t : Forest Unit
     Typing s none t a ↔ a = applySchema s t := by
   rw [cache_transparent]
   exact ⟨typing_unique hs, fun h => h ▸ applyF_typing hs t none⟩
+
+/-- **the same with a proxy constructed on a base element** (`XMLSchemaProxy(schema, base_element=d)`;
+`d` a global element, a local element, or — `assertion` — an `xs:assert` of a complex type): the
+node the schema is applied to is governed by the stipulated declaration (`xs:anyType` itself under
+an assertion proxy), and its children are typed by the declarative relation IN THE CONTENT MODEL OF
+THE BASE ELEMENT'S TYPE.  `base = none` is `apply_schema_eq_typing`. -/
+theorem apply_schema_eq_typing_base (s : Schema) (hs : Consistent s) (base : Option BaseElem)
+    (n : String) (ats : List (String × String)) (x : Xsi) (kids rest : Forest Unit) (a : Forest Ann) :
+    TypingB s base (.elem () n ats x kids rest) a ↔ a = applySchemaB s base (.elem () n ats x kids rest) := by
+  cases base with
+  | none =>
+    constructor
+    · intro h
+      cases h with
+      | default _ _ h => exact (apply_schema_eq_typing s hs _ a).mp h
+    · intro h
+      exact .default _ _ ((apply_schema_eq_typing s hs _ a).mpr h)
+  | some b =>
+    have hk : (applyFC s (some b.decl.type) [] kids).1 = applyF s (some b.decl.type) kids :=
+      (applyFC_spec s kids (some b.decl.type) [] (cacheOK_nil s)).1
+    constructor
+    · intro h
+      cases h with
+      | stipulated _ _ _ _ _ _ kids' hkids =>
+        simp only [applySchemaB, hk, typing_unique hs hkids, clearF_eq]
+    · intro h
+      subst h
+      simp only [applySchemaB, hk, clearF_eq]
+      exact .stipulated b n ats x kids rest _ (applyF_typing hs kids (some b.decl.type))
+
+/-- a proxy on the GLOBAL declaration of the root element types the document exactly like the
+default proxy -/
+theorem apply_schema_base_global (s : Schema) (hs : Consistent s) (d : ElemDecl) (hd : d ∈ s.elements)
+    (ats : List (String × String)) (kids : Forest Unit) :
+    applySchemaB s (some ⟨d, false⟩) (.elem () d.name ats .absent kids .nil) =
+      applySchema s (.elem () d.name ats .absent kids .nil) := by
+  rw [cache_transparent]
+  have hk : (applyFC s (some d.type) [] kids).1 = applyF s (some d.type) kids :=
+    (applyFC_spec s kids (some d.type) [] (cacheOK_nil s)).1
+  have hdecl : declFor s none d.name = some d := getElement_of_mem hs hd rfl
+  simp [applySchemaB, hk, applyF, assign, hdecl, clearF, Forest.map]
 
 /-- on (reduced-)valid instances every element receives a type -/
 theorem valid_all_typed (s : Schema) (hs : Consistent s) (t : Forest Unit) (h : Assessed s none t) :
@@ -68,6 +115,16 @@ def exTree : Forest Unit :=
           (.elem () "zz" [] .absent .nil .nil)))) .nil
 
 example : (applyFC exSchema none [] exTree).2.length = 3 := by decide
+
+/-- the seeded defect, kernel-checked on the model: if the children of the root were resolved in the
+content model of the ROOT'S OWN ANNOTATION (`xs:anyType` under an assertion proxy) instead of the
+base element's type, the locally declared child `a` would stay untyped -/
+theorem assertion_children_need_base_type :
+    let b : BaseElem := ⟨⟨"r", .complex 0, false, none⟩, true⟩
+    let kids : Forest Unit := .elem () "a" [] .absent (.leaf .text "9" .nil) .nil
+    allTypedB (applyFC exSchema (some b.decl.type) [] kids).1 = true ∧
+    allTypedB (applyFC exSchema (some (.simple (.builtin .anyType))) [] kids).1 = false := by decide
+
 
 /-! ## the flat content-model view -/
 
